@@ -237,7 +237,13 @@ pub const FILES: &[&str] = &["main.asm", "other.asm", "third.asm"];
 
 /// everything the editor may open as a document: the source files, the project file and a
 /// document that has no file (and no `file:` URI) yet
-pub const DOCS: &[&str] = &["main.asm", "other.asm", "third.asm", "mos.toml", "untitled:Untitled-1"];
+pub const DOCS: &[&str] = &[
+    "main.asm",
+    "other.asm",
+    "third.asm",
+    "mos.toml",
+    "untitled:Untitled-1",
+];
 
 pub const TOML_VARIANTS: &[&str] = &[
     "[build]\nentry = \"main.asm\"\n",
@@ -347,7 +353,15 @@ pub fn mutate(rng: &mut Rng, text: &str) -> String {
         }
         // rename an identifier textually
         6 => {
-            let ids = ["other_routine", "start", "VALUE", "data", "helper", "inner", "other_value"];
+            let ids = [
+                "other_routine",
+                "start",
+                "VALUE",
+                "data",
+                "helper",
+                "inner",
+                "other_value",
+            ];
             let id = rng.pick(&ids[..]);
             text.replace(id, &format!("{}_x", id))
         }
